@@ -14,7 +14,8 @@ LEVEL = "exploration"
 ENGINE = "E3 stack"
 TECHNIQUE = ("deterministic simulation: concurrent callers of mixed priority on the real EZSP stack against a reference NCP whose per-command "
              "behaviour (reply, late, never, twice, wrong sequence, callbacks around the reply), link faults, caller cancellations and "
-             "same-instant schedules are all drawn from one seeded tape")
+             "same-instant schedules are all drawn from one seeded tape"
+             ' The whole-stack soak (dst/soak.py: one ControllerApplication object through several connect/traffic/failure/reconnect epochs) is a further seeded scenario of this check.')
 LEVEL_TEXT = ("seeded search over caller interleavings, per-command NCP behaviours, link faults and cancellation points with unique response "
               "values so every returned value is attributable; includes long runs that wrap the 8-bit sequence number; a clean batch is evidence, not proof")
 COMPONENTS = e3.COMPONENTS
@@ -51,14 +52,20 @@ def plan(tier):
         "sweeps": [("long", {"V": V, "n": 300, "faults": False, "sched": False}, None) for V in (4, 8, 14)],
         "sweep_random_tail": True,
         "exhaustive": "",
-        "random": [("mix", {}, 6), ("long", {}, 1)],
-        "runs": 2500 if tier == "quick" else None,
+        "random": [("mix", {}, 6), ("long", {}, 1), ("soak", {}, 1)],
+        "runs": 2800 if tier == "quick" else None,
         "budget_s": 60 if tier == "quick" else 900,
         "batch": 25,
     }
 
 
 def run(scenario, params, tape, detail=False):
+    if scenario == "soak":
+        # the whole-stack soak (dst/soak.py): one application object through several connection epochs with traffic, failures and
+        # reconnects; this check reports the clauses of its own property from it
+        from .. import soak
+
+        return soak.run(params, tape, detail=detail)
     V = params["V"] if "V" in params else VERSIONS[tape.draw(len(VERSIONS), "V")]
     long_run = scenario == "long"
     faults = params["faults"] if "faults" in params else (tape.draw(4, "faults?") == 3)
